@@ -97,6 +97,8 @@ type Iface struct {
 	Func   string // e.g. InputMedia (DecodeInputMedia)
 	Ctors  []string
 	Refs   []int
+	// the body spends the nesting budget: PeekID, `if err := buf.EnterObject(); …`, `defer buf.LeaveObject()`, switch
+	Guarded bool
 }
 
 type Schema struct {
@@ -1003,11 +1005,19 @@ func buildSchema(repo string) (*Schema, error) {
 			}
 			ifc := &Iface{Idx: len(s.Ifaces), Pkg: p.name, GoName: src(p.fset, fd.Type.Results.List[0].Type), Func: strings.TrimPrefix(fn, "Decode")}
 			ok := false
+			entered, deferred := false, false
 			for _, st := range fd.Body.List {
+				if is, isIf := st.(*ast.IfStmt); isIf && is.Init != nil && src(p.fset, is.Init) == "err := buf.EnterObject()" && isErrReturnBody(is) {
+					entered = true
+				}
+				if ds, isDefer := st.(*ast.DeferStmt); isDefer && src(p.fset, ds.Call) == "buf.LeaveObject()" {
+					deferred = entered
+				}
 				sw, isSw := st.(*ast.SwitchStmt)
 				if !isSw {
 					continue
 				}
+				ifc.Guarded = entered && deferred
 				ok = true
 				for _, cc := range sw.Body.List {
 					cl := cc.(*ast.CaseClause)
